@@ -66,6 +66,14 @@ register("C02",
          "Trusted: Coq kernel; Model/Plan.v + Model/Join.v + Model/Mult.v hand-written (modelled-not-verified), tied by differential testing; hash injectivity and value bound are explicit hypotheses; DuckDB as oracle. No axioms.",
          "Coq induction over join steps (multiplicity invariant) + symmetric-aggregate algebra; model/implementation correspondence on generated forests", "DESIGN.md section 6/C02")
 
+register("C03",
+         "Machine-checked Coq theorems about the multi-fact form for sub-query results of ANY size: the FULL OUTER JOIN (NULL-safe dimension equality, COALESCE) of two key-unique sub-results has exactly the union of their groups, each once (C03_union), "
+         "and every value of either sub-query appears unchanged in its group's row, NULL-padded where the other side lacks the group (C03_values_*); the exact shape of the join is characterised without any uniqueness hypothesis; the three-way chain is refuted by witnesses. "
+         "Model/MultiFact.v (sub-query per metric model reusing the C02 plan/join model, join chain, filter partitioning) is hand-written and tied to the code by executing joint queries on both; the oracle is the property's own observation: "
+         "the full outer join of the IMPLEMENTATION's single-metric results. Known-finding classes K1 (filter on a metric model), K2 (filter on a non-metric model -> binder error), K4 (metrics of two models joined one_to_one are not split).",
+         "Trusted: Coq kernel; Model/MultiFact.v hand-written, tied by differential testing; DuckDB as oracle. The theorems cover the outer join; that each sub-query equals the single-metric query is by construction of the code (same generate() call) and checked by the oracle. No axioms.",
+         "Coq proof about the outer-join combinator + model/implementation correspondence; oracle from the implementation's own single-metric queries", "DESIGN.md section 6/C03")
+
 PENDING = "check not built yet in this revision (see DESIGN.md section 10 build order)"
 
 
